@@ -8,22 +8,22 @@ PY = "/venv/bin/python"
 
 CHECKS = {
     "C01": dict(
-        technique="static analysis: coordinate-frame typestate (FRAME), unit inference (DIM), must-pass-through dataflow (FLOW), periodic-merge rule on resolved normal forms (MERGE), boundary enumeration over each transverse axis' own length and cell-frame period (MERGE:boundary, FRAME:period), half-open window and padding/shift agreement (WINDOW, PADSHIFT), renderer rules (DIST, SHARP, METRIC, SUMCLIP), periodic metric of the duplicate filter (METRIC), exact formula algebra (FORMULA)",
+        technique="static analysis: coordinate-frame typestate (FRAME), unit inference (DIM), must-pass-through dataflow (FLOW), periodic-merge rule on resolved normal forms (MERGE), boundary enumeration over each transverse axis' own length and cell-frame period (MERGE:boundary, FRAME:period), half-open window and padding/shift agreement (WINDOW, PADSHIFT), renderer rules (DIST, SHARP, METRIC, SUMCLIP), periodic metric of the duplicate filter (METRIC), exact formula algebra (FORMULA); transverse periodic-image alignment before the merge mean (MERGE:image), face connectivity of the labelling (CONNECT), one-axis cell-volume rule, all-paths rule on the difference vector of polar_coordinates",
         text="Decides structural necessary conditions of the localisation property on every path of the four position pipelines: array-index -> cell -> grid frame discipline (the +0.5 offset), cell-volume factor of every located volume, wrap into the box (normalize_point) before droplet construction, volume-weighted merge across periodic boundaries in cell units, half-open periodic window on cylinders. It does not decide the count of droplets or the half-cell theorem itself.",
         note="Trusted: the contract table in DESIGN.md §2.4 (scipy.ndimage.center_of_mass returns array-index positions; GridBase.transform/normalize_point frames; grid.discretization units). Decides the named clauses, not the numerical behaviour.",
         ref="DESIGN.md §5 C01"),
     "C03": dict(
-        technique="static analysis: renderer template in exact normal form (DIMGUARD, DIST, SHARP, SMOOTH, WIDTH, CAST), sibling agreement (SIBLING), periodic metric / angle convention / zero-distance division in polar_coordinates (METRIC, ANGLES, DIV0), angle-arity agreement (ARITY), own-amplitude guard rule (GUARD), first-order basis of the interface distance (COEFF), affine level map (AFFINE), sum-then-clip dataflow (SUMCLIP)",
+        technique="static analysis: renderer template in exact normal form (DIMGUARD, DIST, SHARP, SMOOTH, WIDTH, CAST), sibling agreement (SIBLING), periodic metric / angle convention / zero-distance division in polar_coordinates (METRIC, ANGLES, DIV0), angle-arity agreement (ARITY), own-amplitude guard rule (GUARD), first-order basis of the interface distance (COEFF), affine level map (AFFINE), sum-then-clip dataflow (SUMCLIP); shortcut guards keyed on all amplitudes (GUARD:shortcut), all-paths rule of the summed field (SUMCLIP), path-sensitive angle tuples",
         text="Decides that the three _get_phase_field implementations use one profile template (strict <, tanh profile monotone in distance with range (0,1) and midpoint at the interface), the periodic-aware difference vector, that angles returned per dimension are accepted by every perturbed class, that the 3-D angle computation guards the zero distance, that get_phase_field is vmin+(vmax-vmin)*u and that the emulsion field is the in-place clipped sum over all members.",
         note="Trusted: GridBase.difference_vector is the periodic metric; numpy tanh/clip semantics. Translation equivariance and float-sum order independence are not decided.",
         ref="DESIGN.md §5 C03"),
     "C04": dict(
-        technique="static analysis: bounds-table/dtype layout agreement (LAYOUT), constraint-mask dominance and def-use of the packed parameter vector (FLOW/PACK), affine typing of intensity slots (AFFINE), plain squared-residual objective (OBJECTIVE), effect summary on the image (EFFECT), wrap must-pass-through",
+        technique="static analysis: bounds-table/dtype layout agreement (LAYOUT), constraint-mask dominance and def-use of the packed parameter vector (FLOW/PACK), affine typing of intensity slots (AFFINE), plain squared-residual objective (OBJECTIVE), effect summary on the image (EFFECT), wrap must-pass-through; unconditional read-back of the optimiser result (PACK:read-back), Kleene evaluation of branch modes",
         text="Decides necessary conditions of 'never worsens / respects bounds, symmetry and the box': data_bounds indices equal the flattened dtype offsets for all five classes, the constraint mask dominates every use of the free mask and every parameter store is indexed by it, x0/lower/upper/closure agree on the packed slots and their affine types, the fit starts from the candidate, levels come from the fitted region, the final position passes normalize_point after the fit, the image is never written, the class is preserved.",
         note="Trusted: scipy.optimize.least_squares returns a point inside the bounds with cost <= cost at a feasible x0. The numeric cost comparison is not decided.",
         ref="DESIGN.md §5 C04"),
     "C06": dict(
-        technique="static analysis: CFG path counting of store actions per loop iteration (PATHCOUNT), ownership/copy-on-insert (OWN), effect summaries (EFFECT), ordering/dominance of alive-set bookkeeping (FLOW), None-default identity tests (NONE-TEST)",
+        technique="static analysis: CFG path counting of store actions per loop iteration (PATHCOUNT), ownership/copy-on-insert (OWN), effect summaries (EFFECT), ordering/dominance of alive-set bookkeeping (FLOW), None-default identity tests (NONE-TEST); exactly-one-append path count in DropletTrack.append (PAIR), metric/strictness of the overlap predicate (METRIC, STRICT)",
         text="Decides that on every path through both matchers each droplet of the frame is stored exactly once, stamped with the frame's time taken from time_course.items(), stored as a copy; that row/column invalidation accompanies each greedy match; that alive tracks are computed from t_last which is updated every frame; that the input time course is never written.",
         note="Trusted: list/zip semantics. 'At most one droplet per frame per track' under the non-overlap precondition is a run-time fact, not decided beyond the invalidation rule.",
         ref="DESIGN.md §5 C06"),
@@ -33,12 +33,12 @@ CHECKS = {
         note="Trusted: GridBase.distance is the periodic metric; scipy cdist applies the metric pairwise. Optimality of the matching for actual motions is not decided.",
         ref="DESIGN.md §5 C07"),
     "C08": dict(
-        technique="static analysis: writer/reader table agreement (IOAGREE) and dtype/ctor layout agreement (LAYOUT) over the five writer and five reader functions; NaN-abstract walk through the width setter (IOAGREE:nan), identity tests of stored times (NONETEST), vacuous default filter of Emulsion.copy (COPYALL)",
+        technique="static analysis: writer/reader table agreement (IOAGREE) and dtype/ctor layout agreement (LAYOUT) over the five writer and five reader functions; NaN-abstract walk through the width setter (IOAGREE:nan), identity tests of stored times (NONETEST), vacuous default filter of Emulsion.copy (COPYALL); file modes and fresh member writers (IOAGREE:mode/fresh), sort by sequence key only, no forced dtype when forming tables (no-cast), no memoised derived data on mutable classes (no-cache), writers propagate failures, exactly-one-append path count (PAIR), constructor-chain forwarding (LAYOUT:ctor-chain)",
         text="Decides that every attribute/dataset key read is written on every writer path, the empty sentinel agrees, keys are zero-padded fixed-width and read through sorted(), the class name written is looked up in a registry keyed by the same name, the time column written first is the one dropped on reading with a 64-bit float type, dtype fields = constructor parameters = stored fields for all droplet classes, mixed-class emulsions raise before anything is written, and equality used for the round trip is exact.",
         note="Trusted: h5py/NumPy store structured arrays bit-exactly; key width 6 gives order agreement up to 10^6 members.",
         ref="DESIGN.md §5 C08"),
     "C09": dict(
-        technique="static analysis: may-be-empty typestate to empty-intolerant sinks (EMPTY), arity agreement (ARITY), zero-distance division (DIV0), documented-error guards (DIMGUARD), dispatch exhaustiveness over branch tables (EXHAUST), feasibility of the packed start vector in exact linear forms (FEASIBLE), containment of the internal spanning-droplet signal (SIGNAL), unset-width default selection of the renderers (WIDTH), coordinate system told to grid.distance (METRIC), NaN-tolerant selection in threshold_otsu (TOTAL)",
+        technique="static analysis: may-be-empty typestate to empty-intolerant sinks (EMPTY), arity agreement (ARITY), zero-distance division (DIV0), documented-error guards (DIMGUARD), dispatch exhaustiveness over branch tables (EXHAUST), feasibility of the packed start vector in exact linear forms (FEASIBLE), containment of the internal spanning-droplet signal (SIGNAL), unset-width default selection of the renderers (WIDTH), coordinate system told to grid.distance (METRIC), NaN-tolerant selection in threshold_otsu (TOTAL); layout-less (empty) emulsion typestate at consistency checks (EMPTY:layout-less), strictly ordered fit bounds (FEASIBLE:strict-bounds), bounds values (LAYOUT), boundary enumeration (MERGE:boundary), modes validity on the space dimension (EXHAUST:modes-dim), threshold-option typestate (TOTAL:threshold)",
         text="Decides crash-freedom necessary conditions for the input classes the property names: empty frames/selections are guarded before cdist/center_of_mass/transform, every ndimage.label caller returns an empty emulsion on zero labels, rendering passes each perturbed class as many angles as it accepts, the 3-D angle computation cannot divide 0/0, the grid-family and threshold dispatches are exhaustive with the documented errors, and the fit's start vector is feasible by construction.",
         note="Absence of all exceptions and finiteness of fitted values are not decided.",
         ref="DESIGN.md §5 C09"),
@@ -48,52 +48,52 @@ CHECKS = {
         note="Trusted: numpy.delete/argmin/unravel_index semantics, KD-tree query contract, Generator.uniform range.",
         ref="DESIGN.md §5 C10"),
     "C11": dict(
-        technique="static analysis: term normal forms over uninterpreted converters (TERM), operand-swap symmetry, read-after-write alias rule (ALIAS), sibling/effect rules on merge, exact formula algebra (FORMULA)",
+        technique="static analysis: term normal forms over uninterpreted converters (TERM), operand-swap symmetry, read-after-write alias rule (ALIAS), sibling/effect rules on merge, exact formula algebra (FORMULA); default of the in-place switch (EFFECT:default)",
         text="Decides, for all operands at once, that the merge kernels store RfV(VfR(r1)+VfR(r2)), the volume-weighted mean position and the mean width (exact AC-normal forms, invariant under operand swap), on every path; that no operand field is read after the same out field was written (in-place = out-of-place); that both branches of merge run the same kernel on the same operands, the copy branch into a fresh record; and that the converters are exact mutual inverses per dimension.",
         note="Trusted: IEEE + and * commute; numba register_jitable preserves semantics. Floating-point associativity across many merges is not decided.",
         ref="DESIGN.md §5 C11"),
     "C12": dict(
-        technique="static analysis: exact monomial algebra over extracted return expressions (FORMULA) with complete (variant x dimension) enumeration, generic per-dimension evaluation with sibling inlining, no-division-by-argument rule (ZERO), argument-shaped constants (FORMULA:constant-shape), identities (FORMULA-ID), wiring rules on droplet properties (WIRING)",
+        technique="static analysis: exact monomial algebra over extracted return expressions (FORMULA) with complete (variant x dimension) enumeration, generic per-dimension evaluation with sibling inlining, no-division-by-argument rule (ZERO), argument-shaped constants (FORMULA:constant-shape), identities (FORMULA-ID), wiring rules on droplet properties (WIRING); interprocedural per-dimension evaluation of helper functions, argument-unmodified rule (ARG), statelessness of converters and factories (STATELESS), bbox overrides (WIRING)",
         text="Every return expression of every variant of each sphere conversion (plain, dimension-specialised factory, dimension-generic factory, numba overload lambdas, py-pde's function) is evaluated per dimension into an exact monomial over the reals; variants must be equal, compositions must be the identity, dV/dr must equal the surface, and the droplet properties must call the matching converter with (radius, dim). Exhaustive over the finite table; exact for every positive real.",
         note="Exact arithmetic over the reals; last-bit floating-point agreement and NumPy scalar/array dispatch are not decided.",
         ref="DESIGN.md §5 C12"),
     "C13": dict(
-        technique="static analysis: dual-number first-order expansion over exact normal forms (COEFF), accumulation and index-origin rules over amplitude loops (ACCUM, ORIGIN, GUARD, PAIRS), unit inference (DIM), may-be-scalar shape analysis (SHAPE), interface completeness (COMPLETE), unit-vector convention (UNITVEC), symbolic derivative pairing (DERIV), closed-form algebra (FORMULA), quadrature limits (INTEGRAL), overridable-vertex rule (TRIANG)",
+        technique="static analysis: dual-number first-order expansion over exact normal forms (COEFF), accumulation and index-origin rules over amplitude loops (ACCUM, ORIGIN, GUARD, PAIRS), unit inference (DIM), may-be-scalar shape analysis (SHAPE), interface completeness (COMPLETE), unit-vector convention (UNITVEC), symbolic derivative pairing (DERIV), closed-form algebra (FORMULA), quadrature limits (INTEGRAL), overridable-vertex rule (TRIANG); index-loop normal form over the amplitude vector, closed-form volume degree rule (INTEGRAL), shortcut guards (GUARD:shortcut)",
         text="Decides that every mode contributes to distance, curvature, surface and volume series (cumulative updates only), that curvature/volume/area expressions are dimensionally homogeneous for any radius, that the derivative series in the 2D surface area is term-by-term the φ-derivative of the distance series, that mode indices start at 1 consistently, that every perturbed class overrides the whole shape interface, that 3D and axisymmetric curvature coefficients agree, that the 3D volume integrates over the full sphere, and that pair iteration yields every amplitude.",
         note="That the closed forms equal the integrals numerically is not decided.",
         ref="DESIGN.md §5 C13"),
     "C14": dict(
-        technique="static analysis: option forwarding against callee signatures (FORWARD), pipeline equality on the call graph (PIPE), try-guard shape (TRYGUARD), paired appends (PAIR), None-default identity tests, writer/reader agreement (IOAGREE)",
+        technique="static analysis: option forwarding against callee signatures (FORWARD), pipeline equality on the call graph (PIPE), try-guard shape (TRYGUARD), paired appends (PAIR), None-default identity tests, writer/reader agreement (IOAGREE); every-frame must-pass-through of the analysis call (PIPE:every-frame), same-value rule between analysis and record (SAMEVALUE), time attribute on every writer path, file modes",
         text="Decides that every analysis option the droplet tracker stores is forwarded unconditionally to locate_droplets under the matching keyword, that tracker and offline paths are the same locate_droplets -> EmulsionTimeCourse.append pipeline with the solver time bound to the time parameter (tested with `is None`), that the length-scale call is guarded by an except Exception (or wider) handler assigning NaN without re-raising, that times and values are appended pairwise on every path, and that finalize writes what the readers read.",
         note="Solver-driven runs are not analysed; pde.visualization.plotting.extract_field is trusted to be deterministic.",
         ref="DESIGN.md §5 C14"),
     "C15": dict(
-        technique="static analysis: ordered-map API rule and serial/parallel branch agreement (PARMAP), one-shot iterable consumption (ITER-ONCE), argument forwarding (FORWARD), purity over the reachable call graph (PURE), taint closure from the per-item parameter to writes into objects shared between items (SHARED), pool-size rule (PARMAP:workers)",
+        technique="static analysis: ordered-map API rule and serial/parallel branch agreement (PARMAP), one-shot iterable consumption (ITER-ONCE), argument forwarding (FORWARD), purity over the reachable call graph (PURE), taint closure from the per-item parameter to writes into objects shared between items (SHARED), pool-size rule (PARMAP:workers); module-level state (random generators, run-time filled containers) in the reachable call graph, loop-carried state in the serial branch",
         text="Order for every completion schedule follows from Executor.map's contract; the check decides that both parallel sites use it and consume it in order, that serial and parallel branches apply the same callee to the same fixed arguments, keywords, iterable and filter, that one-shot iterables are consumed once, and that no RNG/clock/environment/global state is reachable from the analysis entry points.",
         note="Trusted: concurrent.futures.Executor.map ordering contract; pickling round trip is bit-exact.",
         ref="DESIGN.md §5 C15"),
     "C16": dict(
-        technique="static analysis: unit inference with length/amplitude/cell-count dimensions and coordinate-vs-length typing (DIM, AFFINE), raw-data and orthonormal-transform rule (RAWDATA), per-axis index agreement (INDEXAGREE), pass-through of requested wave numbers (PASS), path-sensitive zero-mode rule (ADDZERO)",
+        technique="static analysis: unit inference with length/amplitude/cell-count dimensions and coordinate-vs-length typing (DIM, AFFINE), raw-data and orthonormal-transform rule (RAWDATA), per-axis index agreement (INDEXAGREE), pass-through of requested wave numbers (PASS), path-sensitive zero-mode rule (ADDZERO); smoother input rule (SMOOTHIN), statelessness (STATELESS), absolute-tolerance comparisons of dimensional quantities (DIM:isclose)",
         text="Decides homogeneity degree 0 of the structure factor in field amplitude and cell count (orthonormal FFT, squared modulus, division by the squared norm), wave numbers with unit 1/length built from matching shape/spacing indices over all axes, identical [1:] truncation of spectrum and wave numbers, requested wave numbers returned unchanged, (0, 1) prepended consistently, smoothing width and k_min in wave-number units.",
         note="Trusted: numpy.fft.fftfreq(n, d) has unit 1/d; fftn(norm='ortho') scales amplitude by count^(1/2). FFT theorems (Parseval, symmetries) are not decided.",
         ref="DESIGN.md §5 C16"),
     "C17": dict(
-        technique="static analysis: unit inference (DIM) with coordinate-vs-length typing (AFFINE) along every path to the returned length scale on all three method branches, per-axis wave-vector agreement (INDEXAGREE), dispatch exhaustiveness (EXHAUST), box-volume and peak-search shape rules (VOLUME, PEAK), amplitude unit of the threshold reaching the mask comparison, cell-vs-length frame discipline of the Cartesian locator (FRAME, FLOW, MERGE) and exact normal forms of the relative threshold rules (THRESH) for the droplet count",
+        technique="static analysis: unit inference (DIM) with coordinate-vs-length typing (AFFINE) along every path to the returned length scale on all three method branches, per-axis wave-vector agreement (INDEXAGREE), dispatch exhaustiveness (EXHAUST), box-volume and peak-search shape rules (VOLUME, PEAK), amplitude unit of the threshold reaching the mask comparison, cell-vs-length frame discipline of the Cartesian locator (FRAME, FLOW, MERGE) and exact normal forms of the relative threshold rules (THRESH) for the droplet count; unmodified spectrum on the way to the peak search (PEAK:spectrum), raw-data rules of the spectrum (RAWDATA), face connectivity (CONNECT), statelessness of the reachable call graph (STATELESS), absolute-tolerance comparisons of dimensional quantities",
         text="A dimensionally homogeneous computation is covariant under a change of units: the check decides that every operation on the path to the result is homogeneous and that the result has degree (length^1, amplitude^0, count^0) under the API contracts, for all three methods.",
         note="Trusted: SmoothData1D sigma is in units of x; minimize_scalar returns x in bracket units. Half-bin accuracy of the peak method is not decided.",
         ref="DESIGN.md §5 C17"),
     "C18": dict(
-        technique="static analysis: backward-slice rule (SLICE), exact normal forms of the threshold rules (THRESH), dispatch exhaustiveness (EXHAUST), strict mask comparison (GUARDSHAPE), filter placement on the CFG (FILTER), removal-loop shape (REMOVE), orientation/cut abstract interpretation of the Otsu method (ORIENT)",
+        technique="static analysis: backward-slice rule (SLICE), exact normal forms of the threshold rules (THRESH), dispatch exhaustiveness (EXHAUST), strict mask comparison (GUARDSHAPE), filter placement on the CFG (FILTER), removal-loop shape (REMOVE), orientation/cut abstract interpretation of the Otsu method (ORIENT); bin count is the caller's request (THRESH:histogram), binary image unmodified after the comparison (GUARDSHAPE:mask)",
         text="Decides that the unrefined result depends on field values only through the threshold and one strict > comparison, that each documented rule computes its documented reducer of phase_field.data (extrema midpoint, mean, Otsu bin centre with 256 bins and aligned class arrays), that the size filter removes iff radius <= minimal radius by a removal loop that cannot skip elements, before and after refinement with the same argument.",
         note="Invariance of the arg-max index under affine maps in floating point is not decided.",
         ref="DESIGN.md §5 C18"),
     "C19": dict(
-        technique="static analysis: exhaustive abstract evaluation of the class-selection fragment over the finite configuration space (CLASSSEL), constructor/field layout compatibility (LAYOUT)",
+        technique="static analysis: exhaustive abstract evaluation of the class-selection fragment over the finite configuration space (CLASSSEL), constructor/field layout compatibility (LAYOUT); all-paths rules of locate_droplets/refine_droplet, data-dependent (TOP) values in the abstract evaluation, configuration-rebinding prefix, constructor-chain forwarding",
         text="The class-selection fragment of locate_droplets plus the promotion in refine_droplet is abstractly evaluated over all (grid family x dimension x modes x width given/zero/none x refine) configurations and compared with the table in the property (108 configurations, modes 0/2/3); periodicity, refinement flag and threshold rule are shown irrelevant for the selection (no condition reads them). Complete over that finite space, including branches no test executes.",
         note="Supported subset of Python in the fragment: if/elif/else, comparisons with constants, isinstance on the grid, class-name assignment, dict stores, integer arithmetic and augmented assignment; anything else is reported as analysis error, not a verdict.",
         ref="DESIGN.md §5 C19"),
     "C20": dict(
-        technique="static analysis: who-may-store ownership rule and path-sensitive copy-on-insert (OWN), fresh derivations through constructors (FRESH), lock-step parallel lists incl. default-time cases (PAIR), rejection guards dominating the store (REJECT), removal-loop shape (REMOVE), identity tests of optional values (NONETEST), linked-data binding (LINK), order-free summaries (ORDERFREE), in-place merge alias rule (ALIAS), vacuous default filter of Emulsion.copy (COPYALL)",
+        technique="static analysis: who-may-store ownership rule and path-sensitive copy-on-insert (OWN), fresh derivations through constructors (FRESH), lock-step parallel lists incl. default-time cases (PAIR), rejection guards dominating the store (REJECT), removal-loop shape (REMOVE), identity tests of optional values (NONETEST), linked-data binding (LINK), order-free summaries (ORDERFREE), in-place merge alias rule (ALIAS), vacuous default filter of Emulsion.copy (COPYALL); source of the size statistics and total volume (STAT), time axis of trajectory filters (STAT:time-axis), exactly-one-append path count (PAIR)",
         text="Decides that the only primitive stores into the backing lists are the three owner methods, that on the default path the stored value is a fresh copy for every argument type, that copies/slices/sums are built through constructors with re-listed times, that times/members are mutated in lock-step on every path of every method, that constructors own their lists, and that the consistency and dimension guards raise.",
         note="The statistics clause (summary queries equal their definitions) is not decided.",
         ref="DESIGN.md §5 C20"),
